@@ -655,6 +655,136 @@ pub fn child(args: &Args) -> ! {
             let mut last = Arc::try_unwrap(store).ok();
             timed(&mut || drop(last.take()));
         }
+        // mid-call disturbances: while a thread sits between the critical sections of a read-modify-write
+        // call on its *private* key (nobody else will ever touch it again), the key is replaced by a
+        // generation with a 1 s TTL and the clock jumps past that expiry / the key is deleted / replaced /
+        // just expires. Whatever happened, the call has to come back: a retry loop that never ends burns
+        // CPU inside one call, which the per-call CPU budget turns into a verdict.
+        5 => {
+            let persistent = rid % 2 == 1;
+            let mut cfg = if persistent { Cfg::disk(16 + 2048) } else { Cfg::memory() };
+            cfg.cpus = cpus;
+            cfg.ttl = true;
+            if persistent {
+                storeutil::ensure_device(&cfg, &path);
+            }
+            let store = Arc::new(storeutil::open(&cfg, if persistent { Some(&path) } else { None }).expect("open"));
+            thread_local! {
+                static CUR_KEY: std::cell::RefCell<Option<Vec<u8>>> = const { std::cell::RefCell::new(None) };
+                static DISTURB_RNG: std::cell::RefCell<Option<Rng>> = const { std::cell::RefCell::new(None) };
+            }
+            let disturbances = Arc::new([const { std::sync::atomic::AtomicU64::new(0) }; 4]);
+            let livelock: Arc<parking_lot::Mutex<Option<String>>> = Arc::new(parking_lot::Mutex::new(None));
+            {
+                let (s, d, seed) = (store.clone(), disturbances.clone(), args.seed ^ rid);
+                hub().set_action(Some(Arc::new(move |point: &'static str| {
+                    if !matches!(point, "incr.before_swap" | "cas.before_swap" | "patch.before_swap" | "update.before_entry" | "insert.after_read" | "ttl.before_update") {
+                        return;
+                    }
+                    let Some(key) = CUR_KEY.with(|k| k.borrow().clone()) else { return };
+                    let pick = DISTURB_RNG.with(|r| {
+                        let mut r = r.borrow_mut();
+                        let rng = r.get_or_insert_with(|| Rng::derive(seed, fnv(format!("{:?}", std::thread::current().id()).as_bytes()), 5));
+                        rng.below(12)
+                    });
+                    match pick {
+                        0 | 1 => {
+                            // replaced by a generation that is already expired when the caller looks again
+                            let _ = s.insert_with_ttl(&key, &7u64.to_le_bytes(), 1);
+                            feoxdb::verif::advance_clock_ns(2_000_000_000);
+                            d[0].fetch_add(1, Ordering::Relaxed);
+                        }
+                        2 => {
+                            // whatever generation is there expires under the caller's feet
+                            feoxdb::verif::advance_clock_ns(3_000_000_000);
+                            d[1].fetch_add(1, Ordering::Relaxed);
+                        }
+                        3 => {
+                            let _ = s.delete(&key);
+                            d[2].fetch_add(1, Ordering::Relaxed);
+                        }
+                        4 => {
+                            let _ = s.insert(&key, br#"{"n":1,"l":[1]}"#);
+                            d[3].fetch_add(1, Ordering::Relaxed);
+                        }
+                        _ => {}
+                    }
+                })));
+            }
+            {
+                let l = livelock.clone();
+                let (dir, scenario_id, rid) = (dir.clone(), scenario, rid);
+                crate::callwatch::supervise(
+                    20.0,
+                    Arc::new(move |call: String, burnt: f64| {
+                        let msg = format!("VIOLATION {call} has burnt {burnt:.0} s of its own thread's CPU time without returning (a retry loop that cannot make progress); the key is private to the calling thread, nobody else will change it");
+                        *l.lock() = Some(msg.clone());
+                        let out = json!({"scenario": scenario_id, "run": rid, "calls": 0, "max_call_us": 0, "wall_s": 0.0, "notes": [msg], "cpus": 0});
+                        std::fs::write(format!("{dir}/live-{scenario_id}-{rid}.json"), out.to_string()).unwrap();
+                        std::process::exit(0);
+                    }),
+                );
+            }
+            let mut hs = Vec::new();
+            for w in 0..6u64 {
+                let s = store.clone();
+                let mut rng = Rng::derive(args.seed, rid, 500 + w);
+                hs.push(std::thread::spawn(move || {
+                    let mut n = 0u64;
+                    let mut worst = 0u64;
+                    let mut outcomes: BTreeMap<String, u64> = BTreeMap::new();
+                    for i in 0..400u64 {
+                        let k = format!("own-{w}-{}", i % 3).into_bytes();
+                        // the key usually exists, sometimes with a TTL that is about to run out
+                        match rng.below(4) {
+                            0 => {
+                                let _ = s.insert_with_ttl(&k, &5u64.to_le_bytes(), 1);
+                            }
+                            1 => {
+                                let _ = s.insert(&k, &9u64.to_le_bytes());
+                            }
+                            _ => {}
+                        }
+                        CUR_KEY.with(|c| *c.borrow_mut() = Some(k.clone()));
+                        let t = Instant::now();
+                        let (name, r) = match rng.below(7) {
+                            0 => ("atomic_increment", crate::callwatch::watched("atomic_increment", || s.atomic_increment(&k, 1).map(|_| ()))),
+                            1 => ("atomic_increment_ttl", crate::callwatch::watched("atomic_increment_with_timestamp_and_ttl", || s.atomic_increment_with_timestamp_and_ttl(&k, 1, None, 1).map(|_| ()))),
+                            2 => ("compare_and_swap", crate::callwatch::watched("compare_and_swap", || s.compare_and_swap(&k, &9u64.to_le_bytes(), &5u64.to_le_bytes()).map(|_| ()))),
+                            3 => ("json_patch", crate::callwatch::watched("json_patch", || s.json_patch(&k, br#"[{"op":"add","path":"/l/-","value":2}]"#))),
+                            4 => ("insert_if_absent", crate::callwatch::watched("insert_if_absent", || s.insert_if_absent(&k, &3u64.to_le_bytes()).map(|_| ()))),
+                            5 => ("update_ttl", crate::callwatch::watched("update_ttl", || s.update_ttl(&k, 1))),
+                            _ => ("insert", crate::callwatch::watched("insert", || s.insert(&k, &4u64.to_le_bytes()).map(|_| ()))),
+                        };
+                        CUR_KEY.with(|c| *c.borrow_mut() = None);
+                        worst = worst.max(t.elapsed().as_micros() as u64);
+                        *outcomes.entry(format!("{name}:{}", r.as_ref().map(|_| "ok".to_string()).unwrap_or_else(storeutil::err_name))).or_insert(0) += 1;
+                        n += 1;
+                    }
+                    (n, worst, outcomes)
+                }));
+            }
+            let mut all: BTreeMap<String, u64> = BTreeMap::new();
+            for h in hs {
+                let (n, worst, outcomes) = h.join().expect("thread");
+                calls.set(calls.get() + n);
+                max_call_us.set(max_call_us.get().max(worst));
+                for (k, v) in outcomes {
+                    *all.entry(k).or_insert(0) += v;
+                }
+            }
+            hub().set_action(None);
+            let d: Vec<u64> = disturbances.iter().map(|x| x.load(Ordering::Relaxed)).collect();
+            notes.push(format!("mid-call disturbances: ttl-replace+expire {}, expire {}, delete {}, replace {}; outcomes {:?}", d[0], d[1], d[2], d[3], all));
+            if d.iter().sum::<u64>() == 0 {
+                notes.push("INCONCLUSIVE no mid-call disturbance was delivered".into());
+            }
+            timed(&mut || {
+                let _ = store.flush();
+            });
+            let mut last = Arc::try_unwrap(store).ok();
+            timed(&mut || drop(last.take()));
+        }
         // failing device: persistent failure from some I/O call on, then drop (final flush retry limit)
         _ => {
             let mut cfg = Cfg::disk(16 + 256);
@@ -744,7 +874,7 @@ pub fn run_live(args: &Args, report: &mut Report) {
             let mut local = Report::new("live", "");
             loop {
                 let Some(rid) = queue.lock().pop() else { break };
-                let scenario = rid % 5;
+                let scenario = rid % 6;
                 let replay = json!({"engine": "live", "mode": "live", "seed": seed, "scenario": scenario, "run": rid});
                 let mut child = match std::process::Command::new(&exe)
                     .arg("live-child")
@@ -839,9 +969,9 @@ pub fn run(args: &Args) -> Report {
     let mut report = Report::new(
         "live",
         if mode == "wb" {
-            "write-behind without any explicit flush on stores built with 1..8 shards/workers (CPU visibility 2..16), four patterns (small burst touching every shard; buffer-filling burst >=1024 entries per shard; overwrite/delete of already durable keys; idle vs busy neighbouring keys): after the last call returns the engine only polls the pending-work accessor and the device trace; pending work must reach zero, every accepted write must have an extent, the durable prefix of the trace must recover to exactly the accepted state, superseded generations must be retired (independent decode) and the data area must be exactly partitioned. A stall needs 10 s without drain AND 5 s without device activity. distinct = (shard count, pattern, trace size class)"
+            "write-behind without any explicit flush on stores built with 1..8 shards/workers (CPU visibility 2..16), six patterns (small burst touching every shard; buffer-filling burst >=1024 entries per shard; overwrite/delete of already durable keys; idle vs busy neighbouring keys; TTL keys removed by the sweeper only; retirements deferred by readers parked inside reads of the old generations, then nobody writes): after the last call returns the engine only polls the pending-work accessor and the device trace; pending work must reach zero, every accepted write must have an extent, the durable prefix of the trace must recover to exactly the accepted state, superseded generations must be retired (independent decode) and the data area must be exactly partitioned. A stall needs 10 s without drain AND 5 s without device activity. distinct = (shard count, pattern, trace size class)"
         } else {
-            "contention scenarios, each in its own process under a 90 s watchdog whose expiry is judged by a stall signature (no thread consumed CPU for 2 s and none runnable): (0) 2-8 concurrent flush() callers + writers/deleters/readers/scanners on 6 hot keys with 3 ms delays injected at one flusher phase per run; (1) flush racing drop where the flusher thread or the 1 ms TTL sweeper holds the last reference; (2) a 24-block device filled beyond capacity, flushes while full, then deletes + flush must succeed; (3) persistent I/O failure from a seeded call on, 3 threads keep writing/deleting/flushing, then drop with the device still failing; (4) only record-data writes fail while 4 threads update/delete/flush durable keys on 2-8 workers with delays at the journal/data/marker/release points (failed-batch scrub racing retirements), then the device heals. distinct = (scenario, run)"
+            "contention scenarios, each in its own process under a 90 s watchdog whose expiry is judged by a stall signature (no thread consumed CPU for 2 s and none runnable): (0) 2-8 concurrent flush() callers + writers/deleters/readers/scanners on 6 hot keys with 3 ms delays injected at one flusher phase per run; (1) flush racing drop where the flusher thread or the 1 ms TTL sweeper holds the last reference; (2) a 24-block device filled beyond capacity, flushes while full, then deletes + flush must succeed; (3) persistent I/O failure from a seeded call on, 3 threads keep writing/deleting/flushing, then drop with the device still failing; (4) only record-data writes fail while 4 threads update/delete/flush durable keys on 2-8 workers with delays at the journal/data/marker/release points (failed-batch scrub racing retirements), then the device heals; (5) mid-call disturbances: at the scheduling points inside increment / compare-and-swap / JSON patch / insert-if-absent / update_ttl / insert on a key private to the calling thread, the key is replaced by a 1 s TTL generation and the clock jumps past its expiry, or it just expires, or is deleted or replaced - the call must return (a call that burns 20 s of its own thread's CPU time without returning is a livelock). distinct = (scenario, run)"
         },
     );
     if mode == "wb" {
